@@ -3,6 +3,8 @@
 Every entry is an *assumed* contract on a dependency (listed in evidence as trusted base, and
 conformance-tested against the real library by pyvc/conformance.py).  Definitional where possible.
 """
+import os
+
 import z3
 
 from .values import *       # noqa
@@ -170,6 +172,25 @@ def clip_index(i, n):
     return ite(lt(i2, 0), 0, ite(lt(n, i2), n, i2))
 
 
+def _apps_with(expr, var, limit=2):
+    """uninterpreted function applications inside `expr` that take `var` directly as an argument (usable as triggers)"""
+    out, seen = [], set()
+
+    def walk(t):
+        if t.get_id() in seen or len(out) >= limit or z3.is_quantifier(t):
+            return
+        seen.add(t.get_id())
+        if z3.is_app(t):
+            if t.decl().kind() == z3.Z3_OP_UNINTERPRETED and t.num_args() > 0 and any(a.eq(var) for a in t.children()):
+                out.append(t)
+                return
+            for c in t.children():
+                walk(c)
+    if z3.is_expr(expr):
+        walk(expr)
+    return out
+
+
 def compress(eng, st, o, m):
     """a[mask] : the sub-sequence of cells whose mask is true (fresh array)"""
     n = o.shape[0]
@@ -218,8 +239,13 @@ def compress(eng, st, o, m):
     st.assume(z3.ForAll([k], z3.Implies(z3.And(0 <= k, k < cnt), z3.And(0 <= phi(k), phi(k) < n, mk(phi(k)), rank(phi(k)) == k),),
                         patterns=[phi(k)]))
     st.assume(z3.ForAll([k, k2], z3.Implies(z3.And(0 <= k, k < k2, k2 < cnt), phi(k) < phi(k2)), patterns=[z3.MultiPattern(phi(k), phi(k2))]))
+    # the rank of a selected cell: triggered by rank(i) and also by the array cells the mask reads at i (so that a fact about
+    # a particular cell of the masked array is enough to learn where that cell lands)
+    pats = [rank(i)]
+    for t in (_apps_with(mk(i), i) if getattr(eng, 'mask_triggers', False) else []):      # opt-in per contract (mask_triggers=True)
+        pats.append(t)
     st.assume(z3.ForAll([i], z3.Implies(z3.And(0 <= i, i < n, mk(i)), z3.And(0 <= rank(i), rank(i) < cnt, phi(rank(i)) == i)),
-                        patterns=[rank(i)]))
+                        patterns=pats))
     res = ArrV((cnt,) + rest, lambda j, *r, o=o, phi=phi: o.at(phi(to_z3(j)), *r), o.dtype)
     res_ref = new_ref(st, res)
     eng.compress_info[res_ref.oid] = {'src': o, 'mask': m, 'phi': phi, 'rank': rank, 'cnt': cnt}
@@ -792,6 +818,12 @@ def np_vstack(eng, st, args, kwargs):
         total = add(total, b.shape[0])
 
     def at(i, j, blocks=blocks, offs=offs):
+        ic = concrete(i)
+        if ic is not None and all(concrete(o) is not None and concrete(b.shape[0]) is not None for b, o in zip(blocks, offs)):
+            for b, o in zip(blocks, offs):          # concrete position: only the block that holds it is read
+                if concrete(o) <= ic < concrete(o) + concrete(b.shape[0]):
+                    return b.at(int(ic - concrete(o)), j)
+            raise IndexError('vstack index out of range')
         r = blocks[-1].at(sub(i, offs[-1]), j)
         for b, o in reversed(list(zip(blocks[:-1], offs[:-1]))):
             r = ite(lt(i, add(o, b.shape[0])), b.at(sub(i, o), j), r)
@@ -801,9 +833,12 @@ def np_vstack(eng, st, args, kwargs):
 
 @lib('numpy.concatenate', 'numpy.hstack')
 def np_concatenate(eng, st, args, kwargs):
-    if len(args) > 1 or kwargs:
+    if len(args) > 1 or (kwargs and not (set(kwargs) == {'axis'} and concrete(kwargs['axis']) == 0)):
         raise OutOfSubset('np.concatenate with axis')
     parts = calls.seq_items(eng, args[0], st)
+    if kwargs and parts and all(arr_of(eng, st, p) is not None and arr_of(eng, st, p).ndim == 2 for p in parts):
+        yield from np_vstack(eng, st, args, {})          # axis=0 on 2-D arrays stacks the rows
+        return
     blocks = []
     for p in parts:
         a = arr_of(eng, st, p)
@@ -819,6 +854,12 @@ def np_concatenate(eng, st, args, kwargs):
         total = add(total, b.shape[0])
 
     def at(i, blocks=blocks, offs=offs):
+        ic = concrete(i)
+        if ic is not None and all(concrete(o) is not None and concrete(b.shape[0]) is not None for b, o in zip(blocks, offs)):
+            for b, o in zip(blocks, offs):
+                if concrete(o) <= ic < concrete(o) + concrete(b.shape[0]):
+                    return b.at(int(ic - concrete(o)))
+            raise IndexError('concatenate index out of range')
         r = blocks[-1].at(sub(i, offs[-1]))
         for b, o in reversed(list(zip(blocks[:-1], offs[:-1]))):
             r = ite(lt(i, add(o, b.shape[0])), b.at(sub(i, o)), r)
@@ -933,6 +974,9 @@ def np_unique(eng, st, args, kwargs):
     if kwargs or len(args) != 1:
         raise OutOfSubset('np.unique with keywords')
     a = arr_of(eng, st, args[0])
+    if a is not None and a.ndim == 2 and isinstance(a.shape[1], int):
+        w = a.shape[1]          # np.unique flattens: cell t of the flattened array is a[t // w, t % w]
+        a = ArrV((mul(a.shape[0], w),), lambda t, a=a, w=w: a.at(floordiv(t, w), mod(t, w)), a.dtype)
     if a is None or a.ndim != 1:
         raise OutOfSubset('np.unique of a non 1-D value')
     n = a.shape[0]
@@ -952,5 +996,19 @@ def np_unique(eng, st, args, kwargs):
     st.assume(z3.ForAll([i, j], z3.Implies(z3.And(0 <= i, i < j, j < k), u(i) < u(j)), patterns=[z3.MultiPattern(u(i), u(j))]))
     st.assume(z3.ForAll([i], z3.Implies(z3.And(0 <= i, i < k), z3.And(0 <= src(i), src(i) < nz, u(i) == cell(src(i)))), patterns=[u(i)]))
     st.assume(z3.ForAll([j], z3.Implies(z3.And(0 <= j, j < nz), z3.And(0 <= pos(j), pos(j) < k, u(pos(j)) == cell(j))), patterns=[pos(j)]))
+    # ground instances of the last fact at the first and the last input cell (nothing new; they give the solver the terms it needs)
+    for jj in (z3.IntVal(0), nz - 1):
+        st.assume(z3.Implies(nz > 0, z3.And(0 <= pos(jj), pos(jj) < k, u(pos(jj)) == cell(jj))))
     eng.trusted_facts.add('np.unique(a): strictly increasing array with the same set of values as a (library fact, conformance-tested)')
     yield new_ref(st, ArrV((k,), lambda t, u=u: u(to_z3(t)), a.dtype)), st
+
+
+@lib('numpy.arange')
+def np_arange(eng, st, args, kwargs):
+    """np.arange(n) with an integer n: the array 0, 1, ..., n - 1"""
+    if len(args) != 1 or kwargs:
+        raise OutOfSubset('np.arange with start / step / dtype')
+    n = to_num(args[0])
+    if not is_int_like(n):
+        raise OutOfSubset('np.arange of a non-integer')
+    yield new_ref(st, ArrV((maxv(n, 0),), lambda i: i, 'int')), st
